@@ -794,6 +794,21 @@ func generateLR(c *gctx) *Grammar {
 	ref := func(n string) *Expr { return &Expr{Kind: Ref, Name: n} }
 	seq := func(items ...*Expr) *Expr { return &Expr{Kind: Seq, Subs: items} }
 	shape := c.r.Intn(7)
+	if c.cfg.NullableLoops && !c.cfg.LeftRecDirect && c.chance(1, 3) {
+		shape = 7
+	}
+	if shape == 7 {
+		// a rule of the cycle that is not its leader, entered from outside the
+		// cycle, begins with a repetition whose operand can match the empty string
+		// (the leader sorts first by name): what bounds that loop must also work
+		// in left-recursive rules
+		loop := &Expr{Kind: Star, Subs: []*Expr{{Kind: []Kind{Star, Opt}[c.r.Intn(2)], Subs: []*Expr{c.lit()}}}}
+		g.Rules = append(g.Rules,
+			&Rule{Name: "Start", Expr: &Expr{Kind: Choice, Subs: []*Expr{seq(ref("Bb"), c.lit()), ref("Bb")}}},
+			&Rule{Name: "Aa", Expr: &Expr{Kind: Choice, Subs: []*Expr{act(seq(lab(ref("Bb")), operand())), act(operand())}}},
+			&Rule{Name: "Bb", Expr: &Expr{Kind: Choice, Subs: []*Expr{act(seq(st([]*Expr{loop, lab(ref("Aa")), operand()})...)), act(operand())}}})
+		return g
+	}
 	if c.cfg.LeftRecDirect {
 		shape = []int{0, 2, 5}[c.r.Intn(3)]
 	} else if c.cfg.LeftRecRunnable {
